@@ -45,7 +45,7 @@ def run(ctx):
     design(ctx)
     cursor_conformance(ctx, ctx.pick(30, 300), ctx.pick(300, 600))
     # R: P-layer graph with one iterator (6 bound pairs x 2 directions) under every interleaving of Put/Delete/Next
-    for variant in ("int", "rev", "set"):
+    for variant in ("int", "rev", "set", "zero"):
         lts_replay(ctx, "tree", "SortedMap", "lts_it.cfg", "tree4", variant=variant, depth=ctx.pick(4, 5), walks=ctx.pick(6000, 60000), wlen=40,
                    budget=ctx.pick(200000, 2000000), min_cover=0)
     # T: up to six live forward/reverse iterators with random bounds on trees of 1-3 levels,
